@@ -28,6 +28,7 @@ EFFECTS = {
     "remove_unused_nodes": ("dead",    True,        "none",     False,         False,  False),
     "remove_unused_functions": ("none", False,      "unused",   False,         False,  False),
     "convert_version":     ("any",     True,        "inlined",  True,          True,   True),
+    "convert_version_fallback": ("any", True,       "inlined",  True,          True,   True),
     "replace_functions":   ("any",     False,       "inlined",  True,          False,  False),
     "inline":              ("any",     False,       "inlined",  False,         False,  False),
 }
